@@ -413,7 +413,10 @@ def run_halmos(case, timeout=120, extra=(), instrument=False):
         shutil.rmtree(root, ignore_errors=True)
 
 
-STATUS_RE = re.compile(r"^\[(PASS|FAIL|ERROR|TIMEOUT)\]\s+(\S+)\s*(?:\(paths: (\d+))?", re.M)
+# (not anchored at the line start: the probe handler prints "Assertion failure detected in ..." from a solver thread,
+#  which may land in front of the status line of the running test)
+STATUS_RE = re.compile(r"\[(PASS|FAIL|ERROR|TIMEOUT)\]\s+(\S+)\s*(?:\(paths: (\d+))?")
+PROBE_RE = re.compile(r"Assertion failure detected in (\S+?\))")
 
 
 def parse_output(stdout):
@@ -431,8 +434,15 @@ def parse_output(stdout):
         ln = lines[i]
         if ln.startswith("Counterexample:") or ln.startswith("Counterexample (potentially invalid):"):
             probe = None
-            if i > 0 and lines[i - 1].startswith("Assertion failure detected in"):
-                probe = lines[i - 1].split(" in ", 1)[1].strip()
+            for back in (1, 2, 3):  # the announcement is printed by a solver thread: other output may land behind it
+                if i - back < 0:
+                    break
+                mm = PROBE_RE.search(lines[i - back]) if i - back >= 0 else None
+                if mm:
+                    probe = mm.group(1)
+                    break
+                if lines[i - back].strip() and not STATUS_RE.search(lines[i - back]) and not lines[i - back].startswith("Symbolic test result"):
+                    break
             model = {}
             txt = ln.split(":", 1)[1]
             j = i + 1
